@@ -119,6 +119,22 @@ def grid(dialect, quotes, nm=None):
     return out
 
 
+def _ds(src, tgt, col="c1"):
+    return {"source": sorted(src), "target": [tgt], "pairs": [[f"{src[0]}.{col}", f"{tgt}.{col}"]]}
+
+
+DIALECT_SPELLINGS = [
+    ("bigquery", "insert into my-proj.out_ds.t select c1 from my-proj.ds.a", _ds(["my-proj.ds.a"], "my-proj.out_ds.t")),
+    ("bigquery", "insert into `my-proj`.out_ds.t select c1 from `my-proj.ds.a`", _ds(["my-proj.ds.a"], "my-proj.out_ds.t")),
+    ("bigquery", "insert into my-proj-2.out_ds.t select x.c1 from other-proj.ds.a x join ds.b y on x.k = y.k", _ds(["other-proj.ds.a", "ds.b"], "my-proj-2.out_ds.t")),
+    ("bigquery", "create table my-proj.ds.t2 as select c1 from my-proj.ds.t1; insert into fin_t select c1 from `my-proj.ds.t2`",
+     {"source": ["my-proj.ds.t1"], "target": ["<default>.fin_t"], "intermediate": ["my-proj.ds.t2"], "pairs": [["my-proj.ds.t1.c1", "<default>.fin_t.c1"]]}),
+    ("tsql", "insert into db1..t select c1 from db2..a", _ds(["db2..a"], "db1..t")),
+    ("snowflake", "insert into db1..t select c1 from db2..a", _ds(["db2..a"], "db1..t")),
+    ("tsql", "insert into srv.db1.sch.t select c1 from srv.db2.sch.a", _ds(["srv.db2.sch.a"], "srv.db1.sch.t")),
+]
+
+
 def ident_quotes(dialect):
     """which quote characters this dialect's own grammar treats as identifier quotes in a select list (asked of sqlfluff, a dependency)"""
     from sqlfluff.core import FluffConfig, Linter
@@ -155,6 +171,11 @@ def run(tier):
         for pos, sql, exp, adj, kfid in grid(d, fams.get(d) or ident_quotes(d), nm=NON_ASCII):
             cases.append({"sql": sql, "dialect": d, "want": []})
             meta.append((pos + ":non_ascii", exp, adj, kfid))
+    # table names in spellings single dialects have: unquoted project ids with dashes (bigquery; the same entity as the back-quoted spellings),
+    # an empty schema part (db..t), four-part names
+    for d, sql, exp in DIALECT_SPELLINGS:
+        cases.append({"sql": sql, "dialect": d, "want": []})
+        meta.append(("dialect_table_spelling", exp, None, None))
     if tier == "thorough":
         from . import c01
         for d in c01.dialects():
